@@ -397,8 +397,17 @@ class Importer(e4.Explorer):
                         "observation": obs}, 3)
 
 
+def load_all(graph):
+    """one throw-away interpreter that requires every module of the graph
+    (whatever the process keeps about module files is filled by now)"""
+    sx = core.Session()
+    for i in range(len(graph)):
+        core.outcome_of(lambda: sx.interp.interpret("require M%d" % i, "warm"))
+
+
 def explore_graph(chunk):
     agg = core.Agg()
+    prior = None
     for item in chunk["graphs"]:
         graph, depth, targets = item[:3]
         graph = tuple(tuple(x) for x in graph)
@@ -406,7 +415,26 @@ def explore_graph(chunk):
         ex = Importer(graph, targets,
                       [tuple(f) for f in item[3]] if len(item) > 3 else None)
         state = core.Session()
+        seen = set(agg.viol)
         ex.explore(state, Model(graph), [], depth, agg)
+        for k, (sz, v) in agg.viol.items():
+            if k in seen:
+                continue
+            # module files of the same names may have held other text
+            # before, in this job or an earlier one of this worker: a
+            # violation that depends on that history is confirmed here, in
+            # the process that saw it, on a fresh interpreter
+            if prior is not None:
+                v["case"]["prior"] = [list(x) for x in prior]
+            hist = [(h[0], tuple(h[1]) if isinstance(h[1], list) else h[1])
+                    for h in v["case"]["history"]]
+            again = core.Agg()
+            for cmd, exp, obs in ex.replay_fresh(
+                    core.Session, lambda: Model(graph), hist):
+                ex.judge(again, [], cmd, exp, obs)
+            v["case"]["seen_twice"] = bool(again.viol)
+        load_all(graph)
+        prior = graph
     return agg
 
 
@@ -532,6 +560,10 @@ def replay(case, verbose=False):
             print(obs, counts)
         return any(n > 1 for n in counts.values())
     graph = tuple(tuple(x) for x in case["graph"])
+    if case.get("prior"):
+        pg = tuple(tuple(x) for x in case["prior"])
+        write_graph(pg)
+        load_all(pg)
     write_graph(graph)
     ex = Importer(graph, list(range(len(graph))))
     hist = [(h[0], h[1]) for h in case["history"]]
@@ -544,7 +576,7 @@ def replay(case, verbose=False):
             print(command_text(graph, cmd), "\n   expected", exp,
                   "\n   observed", obs)
         bad = bad or bool(a.viol)
-    return bad
+    return bad or bool(case.get("seen_twice"))
 
 
 def main(tier, seed):
@@ -583,6 +615,9 @@ def main(tier, seed):
                                 (it[1] - (1 if len(it) > 3 else 0))))
     for it in items:
         jobs.append({"graphs": [it]})
+    # the same module names with other contents, one after the other in one
+    # process (and in one HOME): nothing of an earlier edition may survive
+    jobs.append({"graphs": [(g, 1, [0, 1]) for g in g2[:6]]})
     agg = core.pmap(explore_graph, jobs)
     agg.n["graphs"] = len(plan)
     mods = bundled_modules()
